@@ -2,9 +2,9 @@
    Property theorems only (proofs in Calc/NegProofs.v, Calc/PermProofs.v); vocabulary in
    Calc/Symmetry.v (neg_doc, invert_doc, invert, remove_included_taxes, as_input) and
    Calc/NegSpec.v (result_neg, totals_neg).  Both rounding rules, every document. *)
-From Coq Require Import ZArith List Bool String Permutation.
+From Coq Require Import ZArith QArith List Bool String Permutation.
 From Verif Require Import Base.Wire Base.Rha Base.RhaProofs Num.Amount Calc.Doc Calc.Calc Calc.Merge Calc.Symmetry
-  Calc.NegSpec Calc.NegProofs Calc.PermProofs.
+  Calc.NegSpec Calc.NegProofs Calc.PermProofs Calc.TaxProofs Calc.PermTaxProofs.
 Import ListNotations.
 Open Scope Z_scope.
 
@@ -68,7 +68,15 @@ Theorem discount_charge_advance_totals_independent_of_row_order c xs ys :
   Permutation xs ys -> sum_opt c xs = sum_opt c ys.
 Proof. exact (row_totals_independent_of_order c xs ys). Qed.
 Print Assumptions discount_charge_advance_totals_independent_of_row_order.
-(* NOT PROVED (kept visible): invariance of the tax groups under row permutation
+
+(* tax side (partial): the total base every category receives is independent of row order, under either
+   rule (corollary of C02's partition theorem).  sumQ_bases / base_totals: Calc/TaxProofs.v, Calc/Calc.v *)
+Theorem category_tax_base_independent_of_row_order cr c cat tls tls' :
+  Permutation tls tls' ->
+  (sumQ_bases cat (base_totals cr c tls) == sumQ_bases cat (base_totals cr c tls'))%Q.
+Proof. exact (category_base_independent_of_row_order cr c cat tls tls'). Qed.
+Print Assumptions category_tax_base_independent_of_row_order.
+(* NOT PROVED (kept visible): invariance of the individual tax groups under row permutation
      Permutation tls tls' -> base_totals cr c tls' is base_totals cr c tls up to the order of categories
      and groups and up to the textual precision of a group's percentage (first-fit grouping takes the
      text of the first row).  Covered by the relational harness (tools/props/c17.py) only. *)
